@@ -11,9 +11,9 @@ KIND_CODE = {"protocluster": 0, "candidatecluster": 1, "subregion": 2}
 FN_NAME = {1: "pack", 2: "build_area_rows", 3: "js.convert_regions"}
 
 # finding classes of this property (entries must exist in known_findings.json with status "known"
-# for a failing case of the class to be reported as KNOWN-FINDING instead of VIOLATION)
-CLASS_CANDIDATE = "candidate_end_unshifted"
-CLASS_SIDE = "core_side_heuristic"
+# for a failing case of the class to be reported as KNOWN-FINDING instead of VIOLATION).
+# The classes candidate_end_unshifted (F34) and core_side_heuristic (F44) were repaired in the code:
+# they are not suppressed any more, their witnesses are in the regression corpus (corpus_scenes).
 CLASS_ASSERT = "area_assert_cross_origin"
 CLASS_GENE_GAP = "gene_across_region_gap"
 
@@ -211,6 +211,45 @@ class Gen:
         return [Region(cands, subs)]
 
 
+def corpus_scenes(gen):
+    """ regression corpus for fn2/fn3: the witnesses of the repaired defects core_side_heuristic (F44:
+        origin-crossing protocluster whose core lies before / after the origin, in an origin-crossing and in
+        a whole-record region) and candidate_end_unshifted (F34: origin-crossing candidate cluster whose core
+        does not cross the origin, unsplit and split).  Returns [(scene, [region])] """
+    from antismash.common.secmet.features import Protocluster, SubRegion, Region
+    from antismash.common.secmet.features.candidate_cluster import CandidateClusterKind
+
+    def proto(core, extent, length, product):
+        return Protocluster(mkloc(core[0], core[1], length), mkloc(extent[0], extent[1], length), tool="t",
+                            product=product, cutoff=1, neighbourhood_range=1, detection_rule="r")
+
+    layouts = [
+        # F44: core before the origin with core_start + core_end <= N (was shifted by N)
+        (1000, [((200, 300), (100, 1050))], False),
+        # F44 mirror: core after the origin with core_start + core_end > N (was left unshifted)
+        (1000, [((1600, 1700), (900, 1800))], False),
+        # F44 in a whole-record region (split): the core must stay on its own half
+        (1000, [((200, 300), (100, 1050))], True),
+        (1000, [((1600, 1700), (900, 1800))], True),
+        # F34 (known_findings.json witness): interleaved candidate [160,300)+[0,56) with core [197,292)
+        (300, [((197, 261), (160, 356)), ((207, 221), (201, 281)), ((268, 280), (255, 292))], False),
+        # F34 in a whole-record region (split: was a half with start = end = 0)
+        (300, [((197, 261), (160, 356)), ((207, 221), (201, 281)), ((268, 280), (255, 292))], True),
+        (1000, [((400, 700), (100, 1050)), ((450, 600), (420, 800))], False),
+    ]
+    out = []
+    for length, protos, whole in layouts:
+        scene = Scene(length, True)
+        scene.protos = [proto(core, extent, length, f"p{i + 10:04d}") for i, (core, extent) in enumerate(protos)]
+        if whole:
+            scene.subs = [SubRegion(mkloc(0, length, length), tool="t", label="s1")]
+        kind = CandidateClusterKind.SINGLE if len(scene.protos) == 1 else CandidateClusterKind.INTERLEAVED
+        cand = gen.Cand(kind, list(scene.protos), circular_wrap_point=length)
+        cand.number = 1
+        out.append((scene, [Region([cand], list(scene.subs))]))
+    return out
+
+
 def protocluster_set_order(region):
     """ the iteration order of the set built by Region.get_unique_protoclusters """
     clusters = set()
@@ -393,7 +432,7 @@ def known_classes():
 
 
 def judge_spec(chk, flat, impl_out, verdict, known, describe):
-    """ verdict of spec_areas (+ spec_orfs): [all e d c ch chc class_cand class_side (orfs)] """
+    """ verdict of spec_areas (+ spec_orfs, class_gene_gap): [all e d c ch chc (orfs gene_gap)] """
     if verdict == [-999]:
         chk.violation("broken-correspondence", "specification could not decode the implementation output",
                       {"theorem_or_correspondence": "spec decoding", "flat": flat, "implementation": impl_out})
@@ -405,8 +444,8 @@ def judge_spec(chk, flat, impl_out, verdict, known, describe):
                           {"theorem_or_correspondence": "C19_pack_no_overlap / C19_pack_complete", "function": "pack",
                            "flat": flat, "implementation": impl_out, "spec_verdict": verdict, "input": describe})
         return
-    ok_all, ext, dis, comp, chain, chain_cand, class_cand, class_side = verdict[:8]
-    orfs_ok = verdict[8] if len(verdict) > 8 else 1
+    ok_all, ext, dis, comp, chain, chain_cand = verdict[:6]
+    orfs_ok = verdict[6] if len(verdict) > 6 else 1
     failures = []
     if not ext:
         failures.append("an extent lies outside the announced range")
@@ -415,26 +454,19 @@ def judge_spec(chk, flat, impl_out, verdict, known, describe):
     if not comp:
         failures.append("a feature is not drawn exactly once (or as two linked halves)")
     if not orfs_ok:
-        if len(verdict) > 9 and verdict[9] and CLASS_GENE_GAP in known:
+        if len(verdict) > 7 and verdict[7] and CLASS_GENE_GAP in known:
             chk.count("known_" + CLASS_GENE_GAP)
             chk.known(known[CLASS_GENE_GAP]["what_fails"])
         else:
             failures.append("a gene lies outside the announced range")
     if not chain:
-        if class_side and CLASS_SIDE in known:
-            chk.count("known_" + CLASS_SIDE)
-            chk.known(known[CLASS_SIDE]["what_fails"])
-        else:
-            failures.append("a protocluster core (or sub-region start/end) lies outside its extent")
+        failures.append("a protocluster core (or sub-region start/end) lies outside its extent")
     if not chain_cand:
-        if class_cand and CLASS_CANDIDATE in known:
-            chk.count("known_" + CLASS_CANDIDATE)
-            chk.known(known[CLASS_CANDIDATE]["what_fails"])
-        else:
-            failures.append("a candidate cluster area has start/end outside its extent or reversed")
+        failures.append("a candidate cluster area has start/end outside its extent or reversed")
     if failures:
         chk.violation("counterexample", f"{FN_NAME[fn]}: " + "; ".join(failures),
-                      {"theorem_or_correspondence": "C19_in_range / C19_pack_no_overlap / C19_pack_complete",
+                      {"theorem_or_correspondence": "C19_build_chain_in_range / C19_in_range_core / C19_pack_no_overlap / "
+                                                    "C19_pack_complete",
                        "function": FN_NAME[fn], "flat": flat, "implementation": impl_out, "spec_verdict": verdict,
                        "input": describe})
 
@@ -476,15 +508,21 @@ def run(chk):
             chk.count("pack_with_origin_crossing_area")
         add(flat, out, len(feats) >= 2, {"length": plen, "areas": [str(f.location) for f in feats]})
 
+    scene_corpus = corpus_scenes(gen)
     for i in range(n_scene):
-        scene = gen.scene()
-        pipeline = rng.random() < 0.3
+        if i < len(scene_corpus):
+            scene, corpus_regions = scene_corpus[i]
+            pipeline = False
+            chk.count("corpus_scene")
+        else:
+            scene, corpus_regions = gen.scene(), None
+            pipeline = rng.random() < 0.3
         try:
             if pipeline:
                 record = make_record(scene, pipeline=True)
                 regions = list(record.get_regions())
             else:
-                regions = gen.direct_regions(scene)
+                regions = corpus_regions if corpus_regions is not None else gen.direct_regions(scene)
                 record = None
         except Exception as exc:  # pylint: disable=broad-except
             chk.count("scene_refused_" + type(exc).__name__)
@@ -537,7 +575,7 @@ def run(chk):
                               {"theorem_or_correspondence": "C19_pack_complete", "function": FN_NAME[flat[1]], "flat": flat,
                                "implementation": out, "input": desc})
             continue
-        if verdict and verdict[0] == 1 and (len(verdict) < 9 or verdict[8] == 1):
+        if verdict and verdict[0] == 1 and (len(verdict) < 7 or verdict[6] == 1):
             continue
         chk.count("spec_not_ok_" + FN_NAME[flat[1]])
         judge_spec(chk, flat, out, verdict, known, desc)
